@@ -589,6 +589,11 @@ func sliceArrayPtr(st *State, sl SliceV) Value {
 type Alt struct {
 	cond *Term
 	val  Value
+	// definitional constraints over fresh variables: always satisfiable once
+	// cond holds, so they are added to the path condition without a query;
+	// fix extends a witness model with values for the fresh variables.
+	defs []*Term
+	fix  func(m Model) Model
 	// optional: continuation applied in the forked state instead of storing val
 	then func(ex *Exec, st *State, fr *Frame)
 }
@@ -681,6 +686,16 @@ func (ex *Exec) forkAlts(st *State, fr *Frame, dst ssa.Value, alts []Alt) {
 		if !isTrue(ok[i].a.cond) {
 			s2.model, s2.modelOK = ok[i].m, ok[i].m != nil
 			s2.depth++
+		}
+		if ok[i].a.defs != nil {
+			for _, d := range ok[i].a.defs {
+				s2.addPC(d)
+			}
+			if s2.modelOK && ok[i].a.fix != nil {
+				s2.model = ok[i].a.fix(s2.model)
+			} else {
+				s2.modelOK = false
+			}
 		}
 		if ok[i].a.then != nil {
 			ok[i].a.then(ex, s2, f2)
